@@ -47,6 +47,41 @@ type oneOut struct {
 	HWM      uint64 `json:"hwm"`                // peak RSS, bytes
 	Status   int    `json:"status,omitempty"`   // HTTP status of the server entry points
 	OutLen   int64  `json:"outlen,omitempty"`
+	// with C11_MEMPROF: call stack (function names, innermost first) of the site that allocated the most bytes
+	AllocSite  []string `json:"alloc_site,omitempty"`
+	AllocBytes int64    `json:"alloc_bytes,omitempty"`
+}
+
+func biggestAllocSite() ([]string, int64) {
+	runtime.GC()
+	runtime.GC()
+	recs := make([]runtime.MemProfileRecord, 4096)
+	n, ok := runtime.MemProfile(recs, true)
+	if !ok {
+		recs = make([]runtime.MemProfileRecord, n+512)
+		n, _ = runtime.MemProfile(recs, true)
+	}
+	best := -1
+	for i := 0; i < n; i++ {
+		if best < 0 || recs[i].AllocBytes > recs[best].AllocBytes {
+			best = i
+		}
+	}
+	if best < 0 {
+		return nil, 0
+	}
+	var names []string
+	fr := runtime.CallersFrames(recs[best].Stack())
+	for {
+		f, more := fr.Next()
+		if f.Function != "" {
+			names = append(names, f.Function)
+		}
+		if !more {
+			break
+		}
+	}
+	return names, recs[best].AllocBytes
 }
 
 const keysDir = "/repo/functest/testkeys"
@@ -103,7 +138,8 @@ func peakRSS() uint64 {
 }
 
 // runEntry executes the entry point. It must not recover.
-func runEntry(entry, sigtype, path, name, content, outPath, scratch string) (o oneOut) {
+func runEntry(entry, sigtype, path, name, content, outPath, scratch, query string) (o oneOut) {
+	extra, _ := url.ParseQuery(query)
 	fail := func(err error) oneOut {
 		if err != nil {
 			o.Class, o.Err = "error", err.Error()
@@ -148,7 +184,7 @@ func runEntry(entry, sigtype, path, name, content, outPath, scratch string) (o o
 			_, err := mod.IsSigned(f)
 			return fail(err)
 		default:
-			flags, err := mod.FlagsFromQuery(url.Values{})
+			flags, err := mod.FlagsFromQuery(extra)
 			if err != nil {
 				return fail(err)
 			}
@@ -185,7 +221,7 @@ func runEntry(entry, sigtype, path, name, content, outPath, scratch string) (o o
 			return fail(err)
 		}
 		defer f.Close()
-		return serverSign(&o, scratch, sigtype, name, url.Values{}, f, fail)
+		return serverSign(&o, scratch, sigtype, name, extra, f, fail)
 	case "patch":
 		// client side of every signing operation: the server's answer is a binpatch applied to the input file
 		blob, err := os.ReadFile(path)
@@ -292,7 +328,7 @@ func init() {
 		}
 		entry, sigtype, path := c.Args[0], c.Args[1], c.Args[2]
 		name := filepath.Base(path)
-		var content, out string
+		var content, out, query string
 		rest := c.Args[3:]
 		for i := 0; i < len(rest); i++ {
 			switch rest[i] {
@@ -302,6 +338,9 @@ func init() {
 			case "--out":
 				i++
 				out = rest[i]
+			case "--query":
+				i++
+				query = rest[i]
 			default:
 				name = rest[i]
 			}
@@ -315,7 +354,14 @@ func init() {
 			defer os.RemoveAll(d)
 			scratch = d
 		}
-		o := runEntry(entry, sigtype, path, name, content, out, scratch)
+		prof := os.Getenv("C11_MEMPROF") != ""
+		if prof {
+			runtime.MemProfileRate = 64 << 10 // every allocation of 64 KiB or more is recorded
+		}
+		o := runEntry(entry, sigtype, path, name, content, out, scratch, query)
+		if prof {
+			o.AllocSite, o.AllocBytes = biggestAllocSite()
+		}
 		var ms runtime.MemStats
 		runtime.ReadMemStats(&ms)
 		o.Sys, o.Total, o.HWM = ms.Sys, ms.TotalAlloc, peakRSS()
